@@ -46,9 +46,12 @@ Definition mir nS nA m g rmax tol (exp : list (@step Q)) (Qi : list (list Q)) ep
 
 CLAUSES = ["c_valid", "c_tally", "c_upper", "c_unknown", "c_bellman", "c_policy"]
 GAMMAS = ["1/2", "3/4", "7/8"]
-SLOW_GAMMAS = ["63/64", "127/128", "255/256"]
+SLOW_GAMMAS = ["63/64", "127/128", "255/256", "1023/1024"]
 # reuse of one RMAX object on MDPs of different table sizes (off: msdm raises IndexError there, reported)
 REUSE_ANY_SIZE = os.environ.get("C17_REUSE_ANY_SIZE", "0") == "1"
+# explicit _state_list containing unreachable states (off: msdm sizes its tables by reachable_states() but
+# indexes them by state_list.index -> IndexError / Q dict not over state_list; reported, decision pending)
+EXPLICIT_UNREACHABLE = os.environ.get("C17_EXPLICIT_UNREACHABLE", "0") == "1"
 
 
 # ---------------------------------------------------------------------------------------------
@@ -63,35 +66,108 @@ def rmax_of(m):
     return max(x for row in R for r2 in row for x in r2)
 
 
+ACTION_STR = ["up", "down", "left", "right", "stay", "x", "a0", "B", ""]
+ACTION_TUP = [[], [0, 1], [1, 0], [-1, 0], [0, -1], [0, 0]]
+STATE_STR = ["", "s1", "b", "A", "z", "m", "k0", "Q", "goal"]
+STATE_TUP = [[], [0, 0], [0, 1], [1, 0], [2, -1], [1, 1], [0, 2], [3, 0], [-1, 5]]
+
+
 def presentation(rng, m):
-    """how the MDP presents its actions: labels (ints, ints in shuffled naming, or strings whose sorted
-    order differs from the id order) and the ORDER in which actions(s) lists them (sorted / one
-    shuffled order for all states / a different shuffled order per state).  msdm sorts action_list,
-    so positions in action_list differ from positions in actions(s); results are mapped by label."""
-    nA = m["nA"]
+    """how the MDP presents itself (results are always mapped back by LABEL):
+    action labels   ints / renamed ints (incl. 0) / strings (incl. "") / tuples (incl. ()) / bools, so that the
+                    sorted order msdm uses for action_list differs from the id order;
+    action order    actions(s) lists them sorted / in one shuffled order / in a different order per state,
+                    as a tuple, a list or a frozenset;
+    state labels    ints 0..n-1 / renamed ints / strings (incl. "") / tuples (incl. ()): sorted(state_list)
+                    then differs from the id order;
+    explicit lists  _state_list/_action_list set explicitly in a shuffled order (exactly the reachable
+                    states; with C17_EXPLICIT_UNREACHABLE=1 also unreachable ones, see report) or inferred;
+    numbers         gamma / rmax passed as int when integral (0, 1, 4) in half of those cases."""
+    nA, n = m["nA"], m["n"]
     kind = rng.random()
-    if kind < .3:
+    if kind < .25:
         labels = list(range(nA))
-    elif kind < .55:
+    elif kind < .45:
         labels = rng.sample(range(10), nA)
+    elif kind < .7:
+        labels = rng.sample(ACTION_STR, nA)
+    elif kind < .9 or nA > 2:
+        labels = rng.sample(ACTION_TUP, nA)
     else:
-        labels = rng.sample(["up", "down", "left", "right", "stay", "x", "a0", "B"], nA)
+        labels = rng.sample([False, True], nA)
     okind = rng.random()
     if okind < .2:
-        perm = [list(range(nA)) for _ in range(m["n"])]
+        perm = [list(range(nA)) for _ in range(n)]
     elif okind < .6:
         p0 = rng.sample(range(nA), nA)
-        perm = [list(p0) for _ in range(m["n"])]
+        perm = [list(p0) for _ in range(n)]
     else:
-        perm = [rng.sample(range(nA), nA) for _ in range(m["n"])]
-    return {"action_labels": labels, "action_perm": perm}
+        perm = [rng.sample(range(nA), nA) for _ in range(n)]
+    skind = rng.random()
+    if skind < .4:
+        slabels = list(range(n))
+    elif skind < .6:
+        slabels = rng.sample(range(12), n)
+    elif skind < .8:
+        slabels = rng.sample(STATE_STR, n)
+    else:
+        slabels = rng.sample(STATE_TUP, n)
+    explicit = None
+    if rng.random() < .25:
+        reach = sorted(gen_mdp.reachable(m))
+        states = list(reach)
+        if EXPLICIT_UNREACHABLE:
+            states += [s for s in range(n) if s not in reach]
+        rng.shuffle(states)
+        explicit = {"states": states, "actions": rng.sample(range(nA), nA)}
+    return {"action_labels": labels, "action_perm": perm, "state_labels": slabels,
+            "actions_container": rng.choice(["tuple", "tuple", "list", "frozenset"]),
+            "explicit_lists": explicit, "ints_as_int": rng.random() < .5}
 
 
-def gen_main_mdp(rng, tier, gamma, keep_trivial=False):
+def perturb(rng, m):
+    """boundary / magnitude variants of a main-family MDP (all numbers stay dyadic, so msdm's floats are exact);
+    returns the list of variants applied"""
+    tags = []
+    n, nA = m["n"], m["nA"]
+    live = [s for s in range(n) if not m["absorbing"][s]]
+    r = rng.random()
+    if r < .08:
+        # very large rewards: everything scaled by 2^10 or 2^20 (rmax up to ~4e6, optimistic value ~3e7)
+        k = rng.choice([10, 20])
+        m["reward"] = {key: str(F(v) * 2 ** k) for key, v in m["reward"].items()}
+        tags.append("rewards-x2^%d" % k)
+    elif r < .16 and nA >= 2 and live:
+        # near tie: action a1 is a copy of a0 whose rewards are larger by 2^-30 (must be told apart exactly)
+        s = rng.choice(live)
+        a0, a1 = rng.sample(range(nA), 2)
+        row = m["trans"]["%d,%d" % (s, a0)]
+        m["trans"]["%d,%d" % (s, a1)] = [list(x) for x in row]
+        for ns, pr in row:
+            m["reward"].pop("%d,%d,%d" % (s, a1, ns), None)
+            if F(pr) > 0:
+                m["reward"]["%d,%d,%d" % (s, a1, ns)] = str(F(m["reward"].get("%d,%d,%d" % (s, a0, ns), "0")) + F(1, 2 ** 30))
+        tags.append("near-tie-2^-30")
+    if rng.random() < .06 and live:
+        # a transition of probability 2^-30 (and its complement 1-2^-30 or p-2^-30)
+        s = rng.choice(live)
+        a = rng.randrange(nA)
+        row = m["trans"]["%d,%d" % (s, a)]
+        big = [x for x in row if F(x[1]) >= F(1, 8)]
+        others = [t for t in range(n) if t not in [x[0] for x in row]]
+        if big and others:
+            x = rng.choice(big)
+            x[1] = str(F(x[1]) - F(1, 2 ** 30))
+            row.append([rng.choice(others), str(F(1, 2 ** 30))])
+            tags.append("probability-2^-30")
+    return tags
+
+
+def gen_main_mdp(rng, tier, gamma, keep_trivial=False, nonpos=False):
     nmax = 5 if tier == "quick" else 6
     for _ in range(50):
         m = gen_mdp.gen_mdp(rng, nmax=nmax, amax=3, gamma=gamma, proper=True, uniform_actions=True,
-                            min_states=1 if keep_trivial else 2)
+                            min_states=1 if keep_trivial else 2, nonpos=nonpos)
         starts = [s for s, p in m["init"] if F(p) > 0]
         if keep_trivial or any(not m["absorbing"][s] for s in starts):
             break
@@ -131,27 +207,44 @@ def gen_slow_mdp(rng):
             "absorbing": [False] * ncyc + [True], "init": [[0, "1"]], "gamma": gamma}
 
 
+def draw_seed(rng):
+    r = rng.random()
+    if r < .05:
+        return 0            # falsy seed passed explicitly
+    if r < .08:
+        return None         # global random module (the run is judged on its recorded experience)
+    return rng.randrange(2 ** 31)
+
+
 def gen_case(rng, tier):
     if rng.random() < .08:
         # slow-decay family: certificate only (an exact mirror would need thousands of exact sweeps)
         m = gen_slow_mdp(rng)
         case = {"mdp": m, "m": rng.choice([1, 1, 2]), "episodes": rng.randint(3, 10),
-                "seed": rng.randrange(2 ** 31), "tol": "1/100000", "rmax": str(rmax_of(m)),
-                "family": "slow-decay", "mirror": False}
+                "seed": draw_seed(rng), "tol": "1/100000", "rmax": str(rmax_of(m)),
+                "family": "slow-decay", "mirror": False, "variants": []}
         case.update(presentation(rng, m))
         return case
-    gamma = rng.choice(GAMMAS)
-    m = gen_main_mdp(rng, tier, gamma, keep_trivial=rng.random() < .08)
-    case = {"mdp": m, "m": rng.randint(1, 5), "episodes": rng.randint(1, 30),
-            "seed": rng.randrange(2 ** 31),
-            "tol": rng.choice(["1/100000"] * 3 + ["1/1000", "1/10"]),
-            "rmax": str(rmax_of(m))}
+    gamma = rng.choice(GAMMAS * 6 + ["0"])            # discount 0 exactly in ~5%
+    m = gen_main_mdp(rng, tier, gamma, keep_trivial=rng.random() < .08, nonpos=rng.random() < .06)
+    variants = perturb(rng, m)
+    episodes = 0 if rng.random() < .03 else rng.randint(1, 30)
+    case = {"mdp": m, "m": rng.randint(1, 5), "episodes": episodes,
+            "seed": draw_seed(rng),
+            "tol": rng.choice(["1/100000"] * 6 + ["1/1000", "1/1000", "1/10", "1/10", "1/1000000000"]),
+            "rmax": str(rmax_of(m)), "variants": variants,
+            # a second, fresh RMAX object with the default listener on the already-used MDP object
+            "default_listener_rerun": rng.random() < .15}
     case.update(presentation(rng, m))
     if rng.random() < .2:
-        # object reuse: the SAME RMAX object is trained on this MDP and then on a second MDP with a
-        # different discount rate (and its own rewards / rmax); each result is judged with its own MDP.
-        # The second MDP has the same table size unless REUSE_ANY_SIZE (see known defect in the report:
-        # reuse on a different table size raises IndexError from the cached _self_transition_mat).
+        # object reuse: the SAME RMAX object is trained on this MDP and then again, either on the very same
+        # MDP object or on a second MDP with a different discount rate (and its own rewards / rmax); each
+        # result is judged with its own MDP.  The second MDP has the same table size unless
+        # C17_REUSE_ANY_SIZE=1 (observation: reuse on a different table size raises IndexError from the
+        # cached _self_transition_mat; outside C17's quantifier).
+        if rng.random() < .25:
+            case["then"] = {"same_mdp_object": True}
+            return case
         g2 = rng.choice([g for g in GAMMAS if g != gamma])
         m2 = None
         for _ in range(200):
@@ -232,8 +325,8 @@ def structure_problem(case, res):
     """shape facts the Coq terms rely on (Q dict over state_list x action_list, array shapes, integer counts)"""
     sl, al = res["state_list"], res["action_list"]
     nS, nA = len(sl), len(al)
-    if sl != sorted(set(sl)) or any(not (isinstance(s, int) and 0 <= s < case["mdp"]["n"]) for s in sl):
-        return "state-list-not-a-sorted-set-of-generated-states"
+    if len(sl) != len(set(sl)) or any(not (isinstance(s, int) and 0 <= s < case["mdp"]["n"]) for s in sl):
+        return "state-list-not-a-set-of-generated-states"
     if res["n_states"] != nS or res["n_actions"] != nA:
         return "learner-table-size-differs-from-state-list-x-action-list"
     if res["q_states"] != sl or any(qa != sorted(al) for qa in res["q_actions"]):
@@ -281,6 +374,11 @@ def run(ctx):
     units = []
     for case, res in zip(cases, impl):
         if "error" in res:
+            ex = case.get("explicit_lists")
+            if ex and len(ex["states"]) > len(gen_mdp.reachable(case["mdp"])):
+                ctx.violation("C17:explicit-state-list-with-unreachable-state:raises:" + res["error"].split(":")[0],
+                              {"case": case, "error": res["error"], "trace": res.get("trace", "")}, found=True)
+                continue
             ctx.violation("C17:impl-error:" + res["error"].split(":")[0],
                           {"case": case, "error": res["error"], "trace": res.get("trace", "")}, found=True)
             continue
@@ -304,8 +402,13 @@ def run(ctx):
                 "string_action_labels": 0, "multi_action": 0,
                 "reused_object_second_trainings": 0, "reused_with_different_table_size": 0,
                 "slow_decay_family": 0, "slow_decay_family_closed_known_cycle_decayed": 0,
-                "mirror_skipped_slow_decay_family": 0}
-    by_gamma, by_m = {}, {}
+                "mirror_skipped_slow_decay_family": 0,
+                "policy_queries_at_states_outside_q": 0, "default_listener_reruns": 0,
+                "reused_same_mdp_object": 0, "state_list_order_differs_from_id_order": 0,
+                "explicit_lists": 0, "explicit_list_with_unreachable_state": 0, "tuple_labels": 0, "falsy_labels": 0,
+                "seed_0": 0, "seed_None": 0, "episodes_0": 0, "gamma_0": 0, "rmax_0": 0, "ints_passed_as_int": 0,
+                "actions_as_list_or_frozenset": 0}
+    by_gamma, by_m, by_variant = {}, {}, {}
     for u, (case, view, res, tag) in enumerate(units):
         sp = structure_problem(view, res)
         if sp:
@@ -318,7 +421,10 @@ def run(ctx):
         q0 = rmax / (1 - g)
         Qv = [[vlib.frac(x) for x in row] for row in res["Q"]]
         scale = max([F(1), abs(q0)] + [abs(x) for row in Qv for x in row])
-        slack = F(1, 10 ** 9) * scale
+        # float slack of the certificate: the loop's stop test is evaluated in doubles on values of size
+        # <= scale (rounding of one backup <= ~1e-15*scale); the mirror comparison keeps 1e-9*scale
+        slack = F(1, 10 ** 13) * scale
+        mslack = F(1, 10 ** 9) * scale
         info[u] = {"slack": slack}
         exp = [st for ep in res["episodes"] for st in ep["steps"]]
         eps_t = coqlist("(%s, %s)" % (coqlist(step_term(st) for st in ep["steps"]), nat(ep["end"]))
@@ -332,10 +438,25 @@ def run(ctx):
         meta.append(("chk", u))
         if view.get("mirror", True):
             terms.append("mir %s %s %s %s %s" % (head, q(tol), coqlist(step_term(st) for st in exp),
-                                                qmat(res["Q"]), q(slack)))
+                                                qmat(res["Q"]), q(mslack)))
             meta.append(("mir", u))
         else:
             counters["mirror_skipped_slow_decay_family"] += 1
+        # side checks on rarely used paths (Python only)
+        if not res.get("pi_same_on_second_query", True):
+            ctx.violation(("C17:" if tag == "first" else "C17:reused-object:") + "policy-object-answers-differently-on-second-query",
+                          {"case": case, "training": tag, "impl": res}, found=True)
+        for row in res.get("pi_outside", []):
+            # _create_policy's KeyError branch: a state outside the Q dict gets the uniform policy over its actions
+            counters["policy_queries_at_states_outside_q"] += 1
+            if any(isinstance(x, str) or abs(vlib.frac(x) - F(1, nA)) > F(1, 10 ** 12) for x in row):
+                ctx.violation("C17:policy-at-state-outside-q-not-uniform", {"case": case, "training": tag, "impl": res}, found=True)
+        if tag == "first" and "rerun" in res:
+            counters["default_listener_reruns"] += 1
+            sums = [sum((vlib.frac(st[2]) for st in ep["steps"]), F(0)) for ep in res["episodes"]]
+            if [vlib.frac(x) for x in res["rerun"]["episode_rewards"]] != sums or res["rerun"]["Q"] != res["Q"]:
+                ctx.violation("C17:fresh-object-same-seed-default-listener-differs",
+                              {"case": case, "impl": res, "recorded_episode_rewards": [str(x) for x in sums]}, found=False)
         # input-distribution counters
         cnt = [[int(vlib.frac(x)) for x in row] for row in res["counts"]]
         known = sum(1 for row in cnt for x in row if x >= view["m"])
@@ -353,6 +474,23 @@ def run(ctx):
         counters["per_state_action_orders_differ"] += int(len({tuple(p) for p in perm}) > 1)
         counters["string_action_labels"] += int(any(isinstance(x, str) for x in (view.get("action_labels") or [])))
         counters["multi_action"] += int(nA > 1)
+        counters["reused_same_mdp_object"] += int(tag == "reused" and bool(view.get("same_mdp_object")))
+        counters["state_list_order_differs_from_id_order"] += int(sl != sorted(sl))
+        ex = view.get("explicit_lists")
+        counters["explicit_lists"] += int(bool(ex))
+        counters["explicit_list_with_unreachable_state"] += int(bool(ex) and len(ex["states"]) > len(gen_mdp.reachable(view["mdp"])))
+        labs = list(view.get("action_labels") or []) + list(view.get("state_labels") or [])
+        counters["tuple_labels"] += int(any(isinstance(x, list) for x in labs))
+        counters["falsy_labels"] += int(any((x == "" or x == [] or x is False) for x in labs))
+        counters["seed_0"] += int(view["seed"] == 0 and view["seed"] is not None)
+        counters["seed_None"] += int(view["seed"] is None)
+        counters["episodes_0"] += int(view["episodes"] == 0)
+        counters["gamma_0"] += int(g == 0)
+        counters["rmax_0"] += int(rmax == 0)
+        counters["ints_passed_as_int"] += int(bool(view.get("ints_as_int")) and (g.denominator == 1 or rmax.denominator == 1))
+        counters["actions_as_list_or_frozenset"] += int(view.get("actions_container", "tuple") != "tuple")
+        for t in view.get("variants", []):
+            by_variant[t] = by_variant.get(t, 0) + 1
         if tag == "reused":
             counters["reused_object_second_trainings"] += 1
             counters["reused_with_different_table_size"] += int(table_size(case["mdp"]) != table_size(view["mdp"]))
@@ -412,12 +550,17 @@ def run(ctx):
         "distinct_nontrivial": len(distinct),
         "rule": "three families.  MAIN (about 92%%): proper MDPs from harness/gen_mdp.py (proper=True, uniform_actions=True: 1..%d states, 1..3 actions available in every state, "
                 "k/8 probabilities, zero entries, duplicate rows, explicit absorbing goals possibly with ignored self-loop rewards, "
-                "multi-state initial distributions, rewards in quarters), gamma in {1/2,3/4,7/8}, threshold m in 1..5, episodes 1..30, "
-                "random seed, tolerance in {1e-5 (x3), 1e-3, 1e-1}, action labels ints / renamed ints / strings and actions(s) listing them "
-                "sorted / in one shuffled order / in a different shuffled order per state (results mapped back by label), rmax = max of the reward matrix (the code asserts it); 92%% of MDPs are "
-                "resampled until some initial state is non-absorbing.  REUSE (20%% of MAIN): the same RMAX object is then trained on a second MDP of the same table size with a "
-                "different gamma and its own rewards/rmax (learner.rmax set to it); both trainings are judged, each with its own MDP.  SLOW-DECAY (about 8%%): 1-2 state zero-reward "
-                "cycle left with probability 1/8 or 1/16 to an absorbing state (the only positive reward on the exit), gamma in {63/64,127/128,255/256}, m in {1,2}, tolerance 1e-5: "
+                "multi-state initial distributions, rewards in quarters), gamma in {1/2,3/4,7/8} or exactly 0 (5%%), threshold m in 1..5, episodes 1..30 or 0 (3%%), "
+                "seed random / 0 (5%%) / None (3%%), tolerance in {1e-5 (x6), 1e-3, 1e-1, 1e-9}, rmax = max of the reward matrix (the code asserts it; 0 for the 6%% non-positive-reward MDPs); "
+                "variants: rewards x 2^10 / 2^20 (8%%), an action duplicated with rewards larger by 2^-30 (8%%), a transition of probability 2^-30 (6%%); 92%% of MDPs are "
+                "resampled until some initial state is non-absorbing.  PRESENTATION (all families, results mapped back by label): action labels ints / renamed ints / strings incl. '' / tuples incl. () / bools, "
+                "actions(s) listing them sorted / in one shuffled order / in a different order per state as tuple / list / frozenset; state labels ints / renamed ints / strings / tuples "
+                "(sorted state_list order differs from the id order); explicit shuffled _state_list/_action_list (25%%) or inferred; integral gamma / rmax passed as int (50%%).  "
+                "REUSE (20%% of MAIN): the same RMAX object is trained again, on the very same MDP object (1/4) or on a second MDP of the same table size with a "
+                "different gamma and its own rewards/rmax (learner.rmax set to it); both trainings are judged, each with its own MDP (reuse across table sizes raises IndexError in msdm; "
+                "outside C17's quantifier, generated only with C17_REUSE_ANY_SIZE=1).  15%% of MAIN also run a second fresh RMAX object with the default listener on the already-used MDP object "
+                "(episode_rewards and Q must equal the recorded run).  SLOW-DECAY (about 8%%): 1-2 state zero-reward "
+                "cycle left with probability 1/8 or 1/16 to an absorbing state (the only positive reward on the exit), gamma in {63/64,127/128,255/256,1023/1024}, m in {1,2}, tolerance 1e-5: "
                 "when the first m samples of all cycle pairs stay in the cycle, value iteration needs thousands of sweeps; for this family ONLY the certificate (valid steps, tallies, upper bound, "
                 "unknown pairs, empirical Bellman residual, policy) is evaluated in Coq, the exact mirror is skipped as too slow.  "
                 "distinct = structural hash of (case, training); non-trivial = at least one state-action pair reached the threshold (value iteration ran)" % (5 if tier == "quick" else 6),
@@ -426,5 +569,5 @@ def run(ctx):
         "certificate_checks": nchk, "certificate_rejections": len(rejected),
         "mirror_runs": nmir, "mirror_drift": drift, "mirror_fuel_exhausted": fuel_out,
         "mirror_action_rule_mismatch": act_mismatch,
-        "input_features": dict(counters, by_gamma=by_gamma, by_threshold=by_m),
+        "input_features": dict(counters, by_gamma=by_gamma, by_threshold=by_m, by_variant=by_variant),
     })
